@@ -131,10 +131,10 @@ def main():
                   "baseline_off_cmd": f"cd /repo && env {ENV} go test -vet=off -count=1 ./...",
                   "source_commits": [], "add_only": True},
         "engines": [{"name": "hclverif", "path": "/verif/checker", "serves_properties": [c["property_id"] for c in checks],
-                     "kind_free_text": "repository-specific static analyser (go/packages + go/types + go/cfg + go/ssa): rule engines E1..E8 of DESIGN.md"}],
+                     "kind_free_text": "repository-specific static analyser (go/packages + go/types + go/cfg, own dominator/fact layer, Fourier-Motzkin bounds prover): rule engines E1..E13 of DESIGN.md Part I"}],
         "checks": checks,
         "not_applicable": na,
-        "notes": "All checks are static analyses of /repo's current working tree; none executes hcl-lang code. Known findings: /verif/known_findings.json.",
+        "notes": "All checks are static analyses of /repo's current working tree; none executes hcl-lang code. Thorough tier = second build configuration (GOARCH=386) + self-validation against /verif/seeded (scratch copies under the system temp dir, removed afterwards) + the quick analysis. Known findings: /verif/known_findings.json.",
     }
     json.dump(m, open("/verif/MANIFEST.json", "w"), indent=1)
     try:
